@@ -163,10 +163,12 @@ func (server *SugarDB) handleCommand(ctx context.Context, message []byte, conn *
 		}
 	}
 
-	// If the command is a write command, wait for state copy to finish.
+	// If the command is a write command, wait for state copy to finish, and for a rewrite of the
+	// append-only log to finish: a write between the state copy and the truncation of the log
+	// would be in neither the preamble nor the log.
 	if internal.IsWriteCommand(command, subCommand) {
 		for {
-			if !server.stateCopyInProgress.Load() {
+			if !server.stateCopyInProgress.Load() && !server.rewriteAOFInProgress.Load() {
 				server.stateMutationInProgress.Store(true)
 				break
 			}
